@@ -188,6 +188,14 @@ func c14History(c *engine.C, maxDepth int) []gCommit {
 			c.Tag("op=" + o.name)
 		}
 		cm.Ops = o.ops
+		for xi := range cm.Ops {
+			if cm.Ops[xi].Kind == "rename" {
+				// a rename never lands on a path that exists (git would show that as a delete plus a modify)
+				for exists[cm.Ops[xi].New] {
+					cm.Ops[xi].New += ".2"
+				}
+			}
+		}
 		for _, x := range cm.Ops {
 			switch x.Kind {
 			case "add", "binary":
@@ -197,9 +205,6 @@ func c14History(c *engine.C, maxDepth int) []gCommit {
 				delete(exists, x.Path)
 			case "rename":
 				delete(exists, x.Path)
-				if exists[x.New] {
-					x.New += ".2"
-				}
 				exists[x.New] = true
 				order = append(order, x.New)
 			}
